@@ -65,6 +65,11 @@ def build(seed):
         return q + body + q
 
     mpage = f"module/{mod}.html"
+    # an enumeration: every enumerator is shown with its value, also where the value is implied (0 for the first one and after = -1)
+    e1, e2, e3, e4 = nm("ez"), nm("ea"), nm("eb"), nm("ec")
+    L += ["enum, bind(c)", f"enumerator :: {e1}, {e2} = -1, {e3}", f"enumerator :: {e4} = 5", "end enum"]
+    for en_, val_ in ((e1, "0"), (e2, "-1"), (e3, "0"), (e4, "5")):
+        checks.append({"page": mpage, "fragment": f"{en_} = {val_}", "where": "enumerator_value"})
     # module parameters / variables with hostile initial values
     for _ in range(rng.randint(3, 6)):
         v = nm("hv")
